@@ -166,7 +166,15 @@ func init() {
 						}
 					}
 					if len(flushes) == 0 {
-						r.bad(key, name, c.pos(wcall.Pos()), "bufio.Writer is never flushed")
+						// or flushed by a deferred literal that hands the Flush error to the caller
+						// through the method's named error result
+						if how, bad := deferredFlush(c, fn, wcall); how != "" {
+							r.ok(key, name, c.pos(wcall.Pos()), how)
+						} else if bad != "" {
+							r.bad(key, name, c.pos(wcall.Pos()), bad)
+						} else {
+							r.bad(key, name, c.pos(wcall.Pos()), "bufio.Writer is never flushed")
+						}
 						continue
 					}
 					// every return whose error operand may be nil must be dominated by the nil-edge of a Flush error test
@@ -356,3 +364,97 @@ func flushErrNilDominates(fl *ssa.Call, b *ssa.BasicBlock) bool {
 
 var _ = ast.Inspect
 var _ = types.Universe
+
+// deferredFlush: the writer created by wcall is flushed in a literal deferred
+// before any return of fn, and the Flush error is stored into fn's named error
+// result (the cell every return of fn loads its error operand from).
+func deferredFlush(c *Ctx, fn *ssa.Function, wcall *ssa.Call) (how, bad string) {
+	// the cell the writer lives in (captured variables live in cells)
+	var wcell *ssa.Alloc
+	for _, ref := range *wcall.Referrers() {
+		if st, ok := ref.(*ssa.Store); ok && st.Val == ssa.Value(wcall) {
+			if a, ok := st.Addr.(*ssa.Alloc); ok {
+				wcell = a
+			}
+		}
+	}
+	if wcell == nil {
+		return "", ""
+	}
+	// named error result cells: what the returns load their error operand from
+	resCell := map[*ssa.Alloc]bool{}
+	for _, b := range fn.Blocks {
+		if ret, ok := b.Instrs[len(b.Instrs)-1].(*ssa.Return); ok {
+			for _, res := range ret.Results {
+				if ld, ok := res.(*ssa.UnOp); ok && isErrorType(res.Type()) && ld.Op == token.MUL {
+					if a, ok := ld.X.(*ssa.Alloc); ok {
+						resCell[a] = true
+					}
+				}
+			}
+		}
+	}
+	for _, b := range fn.Blocks {
+		for _, ins := range b.Instrs {
+			df, ok := ins.(*ssa.Defer)
+			if !ok {
+				continue
+			}
+			mc, ok := df.Call.Value.(*ssa.MakeClosure)
+			if !ok {
+				continue
+			}
+			lit := mc.Fn.(*ssa.Function)
+			fvOf := func(a *ssa.Alloc) *ssa.FreeVar {
+				for i, bnd := range mc.Bindings {
+					if bnd == ssa.Value(a) {
+						return lit.FreeVars[i]
+					}
+				}
+				return nil
+			}
+			wfv := fvOf(wcell)
+			if wfv == nil {
+				continue
+			}
+			for _, lb := range lit.Blocks {
+				for _, li := range lb.Instrs {
+					call, ok := li.(*ssa.Call)
+					if !ok {
+						continue
+					}
+					sc := call.Call.StaticCallee()
+					if sc == nil || sc.Name() != "Flush" || len(call.Call.Args) == 0 {
+						continue
+					}
+					if ld, ok := call.Call.Args[0].(*ssa.UnOp); !ok || ld.X != ssa.Value(wfv) {
+						continue
+					}
+					// where does the Flush error go?
+					stored := false
+					for _, ref := range *call.Referrers() {
+						st, ok := ref.(*ssa.Store)
+						if !ok {
+							continue
+						}
+						for a := range resCell {
+							if fv := fvOf(a); fv != nil && st.Addr == ssa.Value(fv) {
+								stored = true
+							}
+						}
+					}
+					if !stored {
+						return "", "the deferred Flush at " + c.pos(call.Pos()) + " does not store its error in the method's named error result: the caller is told the file was written although the last buffered bytes were not"
+					}
+					for _, rb := range fn.Blocks {
+						if _, isRet := rb.Instrs[len(rb.Instrs)-1].(*ssa.Return); isRet && rb != fn.Recover && !(b == rb || b.Dominates(rb)) {
+							return "", "the Flush is deferred at " + c.pos(df.Pos()) + " only on some paths to a return"
+						}
+					}
+					return "flushed by a literal deferred before every return; the Flush error is stored in the named error result", ""
+				}
+			}
+		}
+	}
+	return "", ""
+}
